@@ -1502,6 +1502,22 @@ func flatMapAutomaton(c *core.Ctx, fn *ssa.Function, an *ir.Analysis, isCtor boo
 							stored = true
 						}
 					}
+					if !stored && isCtor {
+						// a constructor may keep the generated sequence in a local and build the object only once it
+						// is known to be non-empty: the object returned on this path must then hold it
+						for _, r := range p.Results {
+							if p.Exit == ir.ExitReturn && !r.IsNil() {
+								if lit := p.End.MemAt(r); lit != nil && ir.Same(fieldOf2(lit, cur), st.R) {
+									stored = true
+								}
+							}
+						}
+						if p.Exit == ir.ExitReturn && len(p.Results) == 1 && p.Results[0].IsNil() || p.To != nil {
+							// no object on this path (empty result, or the search goes on): nothing to hold it yet -
+							// the test of the value itself (not of a field) is what the automaton follows
+							stored = true
+						}
+					}
 					if !stored {
 						return "the generated inner sequence does not become the current one"
 					}
